@@ -54,29 +54,21 @@ example :
       [⟨some 1, some "b.txt", none, none⟩, ⟨some 1, some "a.txt", none, none⟩]).2.1 =
       some ⟨14, [("a.txt", 13), ("b.txt", 11)]⟩ := by decide
 
-/-- The repair sorts by the *written form* of the keys (`pydyf.String.data`: parentheses around, `\ ( )`
-escaped), not by their bytes.  Attachments `report` and `report 2`: the written forms are `(report)` and
-`(report 2)`, and `)` (0x29) sorts after the space (0x20), so the array lists `report 2` before `report` —
-but the key `report` is a proper prefix of `report 2` and ISO 32000-1 7.9.6 wants it first.  The same
-happens for a name followed by `!`, `#`, `$`, `%`, `&`, `'`, and for `(`, `)`, which sort as `\`
-(`a(1)` after `aZ`). -/
-theorem embedded_files_written_form_order :
+/-- Regression example for the repaired defect `embedded-files-written-form-order` (commit e909019).
+186e86a sorted by the *written form* of the keys (`pydyf.String.data`: parentheses around, `\\ ( )`
+escaped): for attachments `report` and `report 2` the written forms `(report)` / `(report 2)` compare
+`)` (0x29) with the space (0x20), and `report 2` was listed first although its key has `report` as a
+proper prefix.  The keys are now compared as bytes: `report`, `report 2` — and `a(1)` before `aZ`
+(for every input: `C18.embedded_files_key_sorted`). -/
+example :
     let cpsOf := fun (s : String) => s.toList.map Char.toNat
     (Wp.Attach.embeddedFiles cpsOf [] 10
-      [⟨some 1, some "report", none, none⟩, ⟨some 1, some "report 2", none, none⟩]).2.1 =
-      some ⟨14, [("report 2", 13), ("report", 11)]⟩ ∧
-    nameLt (Wp.Attach.fKey (cpsOf "report")) (Wp.Attach.fKey (cpsOf "report 2")) = true ∧
-    ¬ SortedBy (rawKey cpsOf) (Wp.Attach.sortSpecs cpsOf
-        [⟨10, 11, "report", "", 1, ""⟩, ⟨12, 13, "report 2", "", 1, ""⟩]) := by
-  refine ⟨by decide, by decide, ?_⟩
-  have e : Wp.Attach.sortSpecs (fun (s : String) => s.toList.map Char.toNat)
-      [⟨10, 11, "report", "", 1, ""⟩, ⟨12, 13, "report 2", "", 1, ""⟩] =
-      [⟨12, 13, "report 2", "", 1, ""⟩, ⟨10, 11, "report", "", 1, ""⟩] := by decide
-  intro h
-  rw [e] at h
-  have h1 := h.1
-  revert h1
-  decide
+      [⟨some 1, some "report 2", none, none⟩, ⟨some 1, some "report", none, none⟩]).2.1 =
+      some ⟨14, [("report", 13), ("report 2", 11)]⟩ ∧
+    nameLt (Wp.Attach.fData (cpsOf "report 2")) (Wp.Attach.fData (cpsOf "report")) = true ∧
+    (Wp.Attach.sortSpecs cpsOf [⟨10, 11, "aZ", "", 1, ""⟩, ⟨12, 13, "a(1)", "", 1, ""⟩]).map (·.filename) =
+      ["a(1)", "aZ"] := by
+  refine ⟨by decide, by decide, by decide⟩
 
 /-- Two attachments with one name (`a.txt` twice) give two equal keys in the `/EmbeddedFiles` name tree:
 a reader that looks a file up by name finds only one of them. -/
@@ -96,5 +88,15 @@ theorem anchor_id_shadowed_by_name :
     Wp.LinkAttr.anchorOf { tag := "a", id := some "x".toList, name := some [] } = none ∧
     resolveLinks [⟨[⟨"y", 0, 0⟩], [⟨"internal", "x", 0⟩]⟩] = [([], [⟨"y", 0, 0⟩])] := by
   refine ⟨by decide +kernel, by decide, by decide⟩
+
+/-- A document with `<link rel=attachment href=…>` can be written once only: on the second
+`write_pdf()` — or on `document.copy(pages).write_pdf()` after a first write — the "Embedded files" block
+re-enters the spent `Attachment.source` context manager and `generate_pdf` dies with `AttributeError`
+(`'_GeneratorContextManager' object has no attribute 'args'`) instead of embedding the file again. -/
+theorem attachment_second_write_crash :
+    Wp.Attach.writeAllAgain (Wp.Attach.metaAttachments (fun _ => ⟨some 2, none, some "plain,hi", none⟩)
+      [⟨some "data:text/plain,hi", none⟩]) = .error (.noneAttribute "_GeneratorContextManager.args") ∧
+    Wp.Attach.writeAllAgain (Wp.Attach.metaAttachments (fun _ => ⟨some 2, none, none, none⟩) [⟨none, none⟩]) = .ok () := by
+  exact ⟨rfl, rfl⟩
 
 end Wp.Witness.C18
